@@ -11,6 +11,9 @@
         a<ki>,<v|n>,<flags>[!]   add / add_ex (1 = KEY_IS_NEW, 2 = CONSTANT_KEY); ! = first allocation refused
         d<ki>                     json_object_object_del
         x<ki,ki,..|->             json_object_object_foreach deleting the current key when listed
+        h<sel>                    json_global_set_string_hash(sel) while the objects are alive (ret = its result)
+        o                         switch to the other of two objects; it is created (json_object_new_object,
+                                  same initial size) at the first switch, under the selection current THEN
    Observation per step (first the fresh table): ret count size lookups iteration [backward]. *)
 open Model
 open Util
@@ -37,12 +40,20 @@ let visited modeb vis = join (List.map (fun (k, v) -> Printf.sprintf "%d:%s" k (
 
 exception Out of string
 
-let run_ops modeb hash nkeys al t0 ops =
-  let t = ref t0 in
+(* [hash_of sel]: the hash function a table created under selection [sel] uses for its whole
+   life; [mk ()] creates a fresh object table; [gsel0] the selection when the case starts *)
+let run_ops modeb hash_of gsel0 mk nkeys al t0 ops =
+  let gsel = ref gsel0 in
+  let objs = [| Some (gsel0, t0); None |] in
+  let cur = ref 0 in
+  let get () = match objs.(!cur) with Some x -> x | None -> failwith "no object" in
+  let t () = snd (get ()) in
+  let hash k = hash_of (fst (get ())) k in
+  let set t' = objs.(!cur) <- Some (fst (get ()), t') in
   let out = ref [obs modeb hash nkeys t0 "new"] in
-  let emit ret = out := obs modeb hash nkeys !t ret :: !out in
+  let emit ret = out := obs modeb hash nkeys (t ()) ret :: !out in
   let ires r = match r with
-    | IOk t' -> t := t'; emit "0"
+    | IOk t' -> set t'; emit "0"
     | IFail -> emit "-1"
     | IOut why -> raise (Out (reason why)) in
   (try
@@ -51,7 +62,7 @@ let run_ops modeb hash nkeys al t0 ops =
       match s.[0] with
       | 'a' when not modeb ->
           (match ints body with
-           | [k; v] -> ires (obj_add_ex keq hash al false !t k v false false)
+           | [k; v] -> ires (obj_add_ex keq hash al false (t ()) k v false false)
            | _ -> failwith "a")
       | 'a' ->
           let fail1 = body.[String.length body - 1] = '!' in
@@ -60,39 +71,51 @@ let run_ops modeb hash nkeys al t0 ops =
            | [k; v; f] ->
                let f = int_of_string f in
                let v = if v = "n" then vnull else int_of_string v in
-               ires (obj_add_ex keq hash al fail1 !t (int_of_string k) v (f land 1 <> 0) (f land 2 <> 0))
+               ires (obj_add_ex keq hash al fail1 (t ()) (int_of_string k) v (f land 1 <> 0) (f land 2 <> 0))
            | _ -> failwith "a")
       | 'i' ->
           (match ints body with
-           | [k; v; c] -> ires (lh_table_insert_w_hash hash al !t k v (c <> 0))
+           | [k; v; c] -> ires (lh_table_insert_w_hash hash al (t ()) k v (c <> 0))
            | _ -> failwith "i")
       | 'd' when not modeb ->
-          (match lh_table_delete keq hash !t (int_of_string body) with
-           | DOk t' -> t := t'; emit "0"
+          (match lh_table_delete keq hash (t ()) (int_of_string body) with
+           | DOk t' -> set t'; emit "0"
            | DNone -> emit "-1"
            | DUB -> raise (Out "nullderef"))
       | 'd' ->
-          (match obj_del keq hash !t (int_of_string body) with
-           | Some t' -> t := t'; emit "0"
+          (match obj_del keq hash (t ()) (int_of_string body) with
+           | Some t' -> set t'; emit "0"
            | None -> raise (Out "nullderef"))
       | 'x' ->
-          let set = ints body in
-          (match obj_foreach_del keq hash modeb (fun k -> List.mem k set) !t with
-           | Some (vis, t') -> t := t'; emit (visited modeb vis)
+          let set_ = ints body in
+          (match obj_foreach_del keq hash modeb (fun k -> List.mem k set_) (t ()) with
+           | Some (vis, t') -> set t'; emit (visited modeb vis)
            | None -> raise (Out "foreach"))
-      | 'z' -> ires (lh_table_resize hash al !t (z_of_string body))
+      | 'z' -> ires (lh_table_resize hash al (t ()) (z_of_string body))
+      | 'h' ->
+          let (g', r) = set_string_hash !gsel (z_of_string body) in
+          gsel := g'; emit (string_of_z r)
+      | 'o' ->
+          cur := 1 - !cur;
+          (match objs.(!cur) with
+           | Some _ -> ()
+           | None -> (match mk (hash_of !gsel) with
+                      | IOk t' -> objs.(!cur) <- Some (!gsel, t')
+                      | IFail -> raise (Out "nomem")
+                      | IOut why -> raise (Out (reason why))));
+          emit "0"
       | 'b' ->
           (* bulk: add keys 0..n-1 (value = key), report the counts at which the size changed *)
           let n = int_of_string body in
           let ch = ref [] in
           for k = 0 to n - 1 do
-            let before = !t.tsize in
-            (match obj_add_ex keq hash al false !t k k false false with
-             | IOk t' -> t := t'
+            let before = (t ()).tsize in
+            (match obj_add_ex keq hash al false (t ()) k k false false with
+             | IOk t' -> set t'
              | IFail -> ()
              | IOut why -> raise (Out (reason why)));
-            if !t.tsize <> before then
-              ch := Printf.sprintf "%d>%s" k (string_of_z !t.tsize) :: !ch
+            if (t ()).tsize <> before then
+              ch := Printf.sprintf "%d>%s" k (string_of_z (t ()).tsize) :: !ch
           done;
           emit (join (List.rev !ch))
       | _ -> failwith "lh op") ops
@@ -117,28 +140,32 @@ let run line =
       let hs = Array.of_list (List.map z_of_string (String.split_on_char ',' hashes)) in
       let hash k = hs.(k) in
       (match lh_table_new (fun _ -> true) (z_of_string size) with
-       | IOk t -> run_ops false hash (Array.length hs) (mk_alloc limit) t (split_on ';' ops)
+       | IOk t -> run_ops false (fun _ -> hash) Z0 (fun _ -> IFail) (Array.length hs) (mk_alloc limit) t (split_on ';' ops)
        | IFail -> "NOMEM"
        | IOut why -> "OUT-" ^ reason why)
   | ["B"; hsel; size; limit; keys; ops] ->
       let ks = Array.of_list (String.split_on_char ',' keys) in
-      let hs = Array.map (fun k ->
-          match String.split_on_char '@' k with
-          | [_; h] -> z_of_string h
-          | [hex] -> let s = string_of_bytes (bytes_of_hex hex) in
-                     z_of_int (if hsel = "1" then perllike s else fnv s)
-          | _ -> failwith "key") ks in
-      let hash k = hs.(k) in
+      let strs = Array.map (fun k -> match String.split_on_char '@' k with
+          | hex :: _ -> string_of_bytes (bytes_of_hex hex) | [] -> "") ks in
+      let scripted = Array.map (fun k -> match String.split_on_char '@' k with
+          | [_; h] -> Some (z_of_string h) | _ -> None) ks in
+      (* the hash function selected by [sel]: 1 = perl-like, 0 = lh_char_hash (seed unknown: any
+         function will do, the theorems hold for all); scripted hashes override both *)
+      let tab1 = Array.map (fun s -> z_of_int (perllike s)) strs
+      and tab0 = Array.map (fun s -> z_of_int (fnv s)) strs in
+      let hash_of sel k = match scripted.(k) with
+        | Some h -> h
+        | None -> if sel = z_of_int 1 then tab1.(k) else tab0.(k) in
+      let gsel0 = if hsel = "1" then z_of_int 1 else Z0 in
       let sz = z_of_string size in
       (* json_object_new_object: 16 slots; another size through lh_table_resize of the empty table *)
-      (match lh_table_new (fun _ -> true) (z_of_int 16) with
-       | IOk t0 ->
-           let t = if size = "16" then IOk t0 else lh_table_resize hash (fun _ -> true) t0 sz in
-           (match t with
-            | IOk t -> run_ops true hash (Array.length ks) (mk_alloc limit) t (split_on ';' ops)
-            | IFail -> "NOMEM"
-            | IOut why -> "OUT-" ^ reason why)
-       | _ -> "NOMEM")
+      let mk hash = match lh_table_new (fun _ -> true) (z_of_int 16) with
+        | IOk t0 -> if size = "16" then IOk t0 else lh_table_resize hash (fun _ -> true) t0 sz
+        | r -> r in
+      (match mk (hash_of gsel0) with
+       | IOk t -> run_ops true hash_of gsel0 mk (Array.length ks) (mk_alloc limit) t (split_on ';' ops)
+       | IFail -> "NOMEM"
+       | IOut why -> "OUT-" ^ reason why)
   | ["L"; lo; hi; step] ->
       let lo = z_of_string lo and hi = z_of_string hi and step = z_of_string step in
       let b = Buffer.create 4096 in
